@@ -11,6 +11,8 @@ Hypothesis HStr : forall s, P (EStr s).
 Hypothesis HBool : forall b, P (EBool b).
 Hypothesis HNone : P ENone.
 Hypothesis HParam : forall i t, P (EParam i t).
+Hypothesis HCol : forall i t n, P (ECol i t n).
+Hypothesis HSub : forall i, P (ESub i).
 Hypothesis HArith : forall op a b, P a -> P b -> P (EArith op a b).
 Hypothesis HNeg : forall a, P a -> P (ENeg a).
 Hypothesis HAbs : forall a, P a -> P (EAbs a).
@@ -31,6 +33,8 @@ Fixpoint expr_ind' (e : expr) : P e :=
   match e with
   | EAttr a => HAttr a | EInt z => HInt z | EStr s => HStr s | EBool b => HBool b | ENone => HNone
   | EParam i t => HParam i t
+  | ECol i t n => HCol i t n
+  | ESub i => HSub i
   | EArith op a b => HArith op a b (expr_ind' a) (expr_ind' b)
   | ENeg a => HNeg a (expr_ind' a) | EAbs a => HAbs a (expr_ind' a)
   | EConcat a b => HConcat a b (expr_ind' a) (expr_ind' b)
@@ -115,6 +119,8 @@ Proof.
   - (* param *) destruct t as [u|]; inversion Ht; subst; cbn.
     + apply andb_prop in Hen; tauto.
     + destruct (param_val en i); cbn in Hen; try discriminate; reflexivity.
+  - (* subquery value *) inversion Ht; subst. cbn. apply andb_prop in Hen. tauto.
+  - (* subquery condition *) inversion Ht; subst. cbn. destruct (attr_val en i) as [| | |b]; try discriminate Hen; [exists U|exists (tv_of_bool b); destruct b]; reflexivity.
   - (* arith *)
     destruct (ty_of e1) as [[[]| |]|], (ty_of e2) as [[[]| |]|]; try discriminate; inversion Ht; subst; cbn;
       destruct (int_of (reval k3 en e1)), (int_of (reval k3 en e2)); reflexivity.
